@@ -159,11 +159,6 @@ func cmdFunc(args []string) {
 	fmt.Printf("total %.2fs\n", time.Since(t0).Seconds())
 }
 
-func cmdCheck(args []string) int {
-	fmt.Fprintln(os.Stderr, "check: not implemented yet")
-	return 2
-}
-
 func cmdSelftest(args []string) int {
 	fmt.Fprintln(os.Stderr, "selftest: not implemented yet")
 	return 2
